@@ -36,6 +36,7 @@ type C20Plan struct {
 	Policy  string    `json:"policy,omitempty"`  // "" = random | "pct": tasks run in priority order and are pre-empted only at the listed change points
 	Prio    []int     `json:"prio,omitempty"`    // pct: task ids, highest priority first
 	Changes []int     `json:"changes,omitempty"` // pct: the k-th hot yield (seam call, or statement inside a method of a key object) demotes the running task to the lowest priority
+	Common  bool      `json:"common,omitempty"`  // race stage: every goroutine also decrypts ONE common file (written before the start) with the shared identity; sched stages: task 1 opens the very same file as task 0
 	Layout  bool      `json:"layout,omitempty"`  // every file is also addressed to ONE common X25519 key, whose stanza sits at a drawn position among 0..5 others: one shared identity sees headers of different lengths and its stanza at different places
 	Ring    bool      `json:"ring,omitempty"`    // the decrypting tasks pass ONE shared identity slice (keyring...) holding all their identities
 	// race mode
@@ -65,11 +66,11 @@ func (C20) Meta() core.Meta {
 	return core.Meta{
 		Level:       "exploration",
 		Rule:        "sched case = 2..8 tasks (Encrypt or Decrypt, own plaintext/tape/destination/source; a third of the encrypting callers close their writer a second time, or also write after that, with a yield in between) sharing ONE recipient and ONE identity object per key (in a third of the cases the decrypting tasks also pass one shared identity slice, keyring..., which must come back unchanged); exactly one task runs at a time and every seam call (rand.Read before and after the draw, dst.Write, src.Read) is a yield at which the plan's PRNG-chosen schedule decides who continues; oracle: each task's output bytes / plaintext equal what the same task yields alone with fresh objects, and afterwards every decrypt task repeated alone with the SHARED objects still gives that result (nothing left behind). sched-fine case = the same with 2..4 tasks in a binary built from a scratch copy of the tree in which cmd/astyield inserted a yield before every statement of age.go, primitives.go, x25519.go, scrypt.go, agessh/agessh.go, internal/stream, internal/format and armor (718 points): statement-granular, still replayable schedules. race case = 2..32 free-running goroutines (GOMAXPROCS 2/4/16, start barrier, Gosched perturbation from the plan) doing Encrypt+Decrypt over the same shared objects in a -race build; any race report is a violation, results must round-trip. Non-trivial = at least one task switch between two tasks using the same key object; distinct = distinct task-switch sequences (sched) / distinct (goroutines, procs, seed) (race).",
-		Assumptions: []string{"sched stage: code between two seam calls runs atomically; the sched-fine stage removes that limit for the library's own statements (not for the standard library or x/crypto below them)", "the sched-fine stage runs the library with inserted yield calls: the rewritten copy is checked to build, and its outputs are compared with runs of the same binary alone", "race stage is NOT schedule-controlled (it is the detector the property names); its replay re-runs the workload and is not exactly repeatable", "the race detector reports no false positives"},
+		Assumptions: []string{"sched stage: code between two seam calls runs atomically; the sched-fine stage removes that limit for the library's own statements (not for the standard library or x/crypto below them)", "the sched-fine stage runs the library with inserted yield calls: the rewritten copy is checked to build, and its outputs are compared with runs of the same binary alone", "race stage is NOT schedule-controlled (it is the detector the property names); its replay re-runs the workload and is not exactly repeatable", "the race detector reports no false positives", "the scheduled stages are cooperative: library code that blocks on another task (a channel, a lock held across a yield) cannot be run by them and ends in a harness time-out (exit 2, never a VIOLATION); such code is left to the free-running stage"},
 		Real:        []string{"filippo.io/age Encrypt/Decrypt", "X25519/scrypt/ssh-ed25519/ssh-rsa recipients and identities shared between tasks", "internal/stream"},
 		Stub:        []string{"task scheduler (baton passing)", "per-task tape behind one routed crypto/rand.Reader", "per-task destination and source"},
 		FaultKinds:  []string{},
-		Probes:      []string{"probe.task_switches", "probe.switch_inside_wrap", "probe.shared_x25519", "probe.shared_scrypt", "probe.shared_ssh_ed25519", "probe.shared_ssh_rsa", "probe.race_runs", "probe.race_goroutines", "probe.race_detector_missing", "probe.statement_level_schedules", "probe.statement_yields", "probe.shared_identity_slice", "probe.common_key_at_varied_positions", "probe.pct_schedules"},
+		Probes:      []string{"probe.task_switches", "probe.switch_inside_wrap", "probe.shared_x25519", "probe.shared_scrypt", "probe.shared_ssh_ed25519", "probe.shared_ssh_rsa", "probe.race_runs", "probe.race_goroutines", "probe.race_detector_missing", "probe.statement_level_schedules", "probe.statement_yields", "probe.shared_identity_slice", "probe.common_key_at_varied_positions", "probe.pct_schedules", "probe.same_file_opened_by_all"},
 	}
 }
 
@@ -99,6 +100,7 @@ func (C20) Generate(r *core.RNG, tier string, idx uint64) interface{} {
 				p.Tasks[i].File.PLen = r.Pick(0, 1, 100)
 			}
 		}
+		p.Common = r.Chance(1, 3)
 		return p
 	}
 	p.Mode = "sched"
@@ -121,6 +123,13 @@ func (C20) Generate(r *core.RNG, tier string, idx uint64) interface{} {
 			t.After = []string{"close", "close-write"}[r.Intn(2)]
 		}
 		p.Tasks = append(p.Tasks, t)
+	}
+	if r.Chance(1, 4) && n >= 2 {
+		// two tasks open the very same file (same salt, same stanzas) with the shared identity
+		p.Common = true
+		p.Tasks[0].Op = "dec"
+		p.Tasks[0].After = ""
+		p.Tasks[1] = p.Tasks[0]
 	}
 	p.Ring = r.Chance(1, 3)
 	if r.Bool() {
@@ -722,6 +731,23 @@ func (e C20) execRaceOnce(p *C20Plan, c *core.Ctx) *core.Verdict {
 		ringBefore = append([]age.Identity(nil), ring...)
 		c.Stats.Inc("probe.shared_identity_slice")
 	}
+	// the common file: task 0's recipients and plaintext, written once before the goroutines start
+	var commonFile []byte
+	var commonKey world.Key
+	if p.Common {
+		t0 := p.Tasks[0]
+		var cb bytes.Buffer
+		w, err := age.Encrypt(&cb, so.recipients(t0.File.Recips)...)
+		if err != nil {
+			return core.Fail("harness", "common file: %v", err)
+		}
+		w.Write(t0.File.Plain())
+		w.Close()
+		commonFile = cb.Bytes()
+		ks := t0.File.Keys()
+		commonKey = ks[t0.IdKey%len(ks)]
+		c.Stats.Inc("probe.same_file_opened_by_all")
+	}
 	var wg sync.WaitGroup
 	start := make(chan struct{})
 	errs := make([]string, len(p.Tasks))
@@ -742,6 +768,17 @@ func (e C20) execRaceOnce(p *C20Plan, c *core.Ctx) *core.Verdict {
 			P := t.File.Plain()
 			<-start
 			for it := 0; it < p.Iters; it++ {
+				if commonFile != nil {
+					r, err := age.Decrypt(bytes.NewReader(commonFile), so.identity(commonKey))
+					if err != nil {
+						errs[i] = "Decrypt of the common file: " + err.Error()
+						return
+					}
+					if got, err := io.ReadAll(r); err != nil || !bytes.Equal(got, p.Tasks[0].File.Plain()) {
+						errs[i] = fmt.Sprintf("common file: %v (%d bytes)", err, len(got))
+						return
+					}
+				}
 				var buf bytes.Buffer
 				w, err := age.Encrypt(&buf, so.recipients(t.File.Recips)...)
 				if err != nil {
